@@ -41,7 +41,7 @@ func runC08(c *eng.Ctx) {
 		cacheBeforeExit(c, r1, hwe, evNode)
 		strippedBeforeUse(c, r1, hwe, evNode)
 		cached := p.Field(pkgKem, "resourceInformer", "cachedObjects")
-		cw := hweCacheWrite(info, cached)
+		cw := hweCacheWrite(p, hwe, cached)
 		// R2: skip
 		checksum := p.Field(pkgKemT, "ObjectAndFilterResult", "Metadata")
 		_ = checksum
@@ -489,7 +489,7 @@ func strippedBeforeUse(c *eng.Ctx, r1 *eng.RuleCtx, hwe *eng.Func, evNode *eng.G
 	cached := p.Field(pkgKem, "resourceInformer", "cachedObjects")
 	stripped := func(n *eng.GNode) bool { return len(g.CallsAt(n, isObj(removeFull))) > 0 }
 	keepEdge := g.FactEdge(func(fc eng.Fact) bool { return fc.Pos && fc.Y == nil && eng.IsField(info, fc.X, keepFull) })
-	cw := hweCacheWrite(info, cached)
+	cw := hweCacheWrite(p, hwe, cached)
 	for _, n := range g.Nodes {
 		isStore := false
 		if as, ok := n.Node.(*ast.AssignStmt); ok && cw(n) {
